@@ -521,6 +521,12 @@ impl Ctx {
                 }
                 let dirty = with_map!(&e.h, m => m.is_dirty());
                 ev.insert("dirty".into(), json!(dirty));
+                if name == "sync_all" || name == "sync_data" {
+                    // what the three files hold right after the call (page cache): a file whose bytes did not change
+                    // since its last OS sync needs no further one
+                    let dg = decode::digest(&self.root.join(&e.dir), &e.name);
+                    ev.insert("fdg".into(), Value::Array(dg.as_array().unwrap().iter().map(|x| json!(format!("{}:{}", x["len"], x["fnv"].as_str().unwrap_or("")))).collect()));
+                }
             }
             "db_sync_all" | "db_sync_data" => {
                 let id = op["db"].as_i64().ok_or("db")?;
@@ -530,6 +536,14 @@ impl Ctx {
                 let io = io_take();
                 ev.insert("io".into(), Value::Array(io.iter().map(|(f, o)| json!([f, o])).collect()));
                 ev.insert("dir".into(), json!(d));
+                let mut fdgs = Map::new();
+                for me in self.maps.values() {
+                    if &me.dir == d && !fdgs.contains_key(&me.mapid) {
+                        let dg = decode::digest(&self.root.join(&me.dir), &me.name);
+                        fdgs.insert(me.mapid.clone(), Value::Array(dg.as_array().unwrap().iter().map(|x| json!(format!("{}:{}", x["len"], x["fnv"].as_str().unwrap_or("")))).collect()));
+                    }
+                }
+                ev.insert("fdgs".into(), Value::Object(fdgs));
                 self.set_res(ev, r, |_| Value::Null);
             }
             "iter" => {
